@@ -383,5 +383,31 @@ Definition ops_C02_prev : list opdef := [
        | _ => VBad end) |}
 ].
 
+(** * "held" index slices: the Go side builds the index of [ws], then the indexes of a decoy bitmap, and only then
+      reads the first index out; the result must be the index of [ws] (the decoy, last argument, is ignored here) *)
+Definition ops_C02_heldidx : list opdef := [
+  {| op_name := "bitmap.IndexSelect32/held";
+     op_run := fun a => match a with
+       | [ws; _] => match as_zs ws with
+                 | Some ws => match IndexSelect32 ws with Some r => vzs r | None => VPanic end
+                 | _ => VBad end
+       | _ => VBad end;
+     op_spec := fun_spec (fun a => match a with
+       | [ws; _] => match as_zs ws with Some ws => vzs (spec_IndexSelect32 ws) | _ => VBad end
+       | _ => VBad end) |};
+  {| op_name := "bitmap.IndexSelect32R64/held";
+     op_run := fun a => match a with
+       | [ws; _] => match as_zs ws with
+                 | Some ws => match IndexSelect32R64 ws with
+                              | Some (s, r) => VL [vzs s; vzs r] | None => VPanic end
+                 | _ => VBad end
+       | _ => VBad end;
+     op_spec := fun_spec (fun a => match a with
+       | [ws; _] => match as_zs ws with
+                 | Some ws => let (s, r) := spec_IndexSelect32R64 ws in VL [vzs s; vzs r]
+                 | _ => VBad end
+       | _ => VBad end) |}
+].
+
 Definition ops_C02 : list opdef :=
-  ops_C02_base ++ ops_C02_widen ++ ops_C02_next ++ ops_C02_toarray ++ ops_C02_prev.
+  ops_C02_base ++ ops_C02_widen ++ ops_C02_next ++ ops_C02_toarray ++ ops_C02_prev ++ ops_C02_heldidx.
